@@ -136,7 +136,7 @@ impl Family for C01Family {
                 _ => (1, 0),
             };
             let mut up = sizes(r, big);
-            if target_mode == 5 && r.chance(1, 2) {
+            if (target_mode == 5 || target_mode == 2) && r.chance(1, 2) {
                 // enough to exhaust the 512-frame window when frames are socket-buffer sized (1 KiB)
                 up = vec![65_536; 16];
                 small_buffers = true;
@@ -165,9 +165,11 @@ impl Family for C01Family {
             }
         }
         let udp = (0..n_udp)
-            .map(|_| UdpClient { via_socks: r.chance(1, 2), target: r.below(n_udp_targets), start_ms: r.below(200) as u64, sizes: (0..(1 + r.below(4))).map(|_| *r.pick(&[0usize, 1, 2, 3, 4, 13, 100, 1400, 9000])).collect(), gap_ms: if r.chance(1, 6) { *r.pick(&[10_500u64, 15_000, 19_500, 25_000]) } else { *r.pick(&[0u64, 10, 300, 900]) }, hops: (0..4).map(|_| r.below(2)).collect(), junk: (0..4).map(|_| if r.chance(1, 4) { 1 + r.below(4) as u8 } else { 0 }).collect() })
+            .map(|_| UdpClient { via_socks: r.chance(1, 2), target: r.below(n_udp_targets), start_ms: r.below(200) as u64, sizes: (0..(1 + r.below(4))).map(|_| *r.pick(&[0usize, 1, 2, 3, 4, 13, 100, 1400, 9000])).collect(), gap_ms: if r.chance(1, 6) { *r.pick(&[10_500u64, 15_000, 19_500, 25_000]) } else { *r.pick(&[0u64, 10, 300, 900]) }, hops: (0..4).map(|_| r.below(2)).collect(), junk: (0..4).map(|_| if r.chance(1, 4) { 1 + r.below(4) as u8 } else { 0 }).collect(), v6: { let mixed = r.chance(1, 4); (0..4).map(|_| mixed && r.chance(1, 2)).collect() } })
             .collect();
-        (serde_json::to_value(C01Plan { net, tcp, udp, n_udp_targets }).expect("plan"), seed)
+        // the stream-request channel of the client has 64 slots
+        let idle_remotes = if r.chance(1, 12) { *r.pick(&[10usize, 63, 64, 65, 80]) } else { 0 };
+        (serde_json::to_value(C01Plan { net, tcp, udp, n_udp_targets, idle_remotes }).expect("plan"), seed)
     }
     fn records_decisions(&self) -> bool {
         false
